@@ -2,7 +2,7 @@
    Statements only; each is closed by [exact] of a lemma proved in Strconv/*Proofs.v. *)
 From Coq Require Import Reals Floats.SpecFloat.
 From Flocq Require Import Core.Core IEEE754.BinarySingleNaN.
-From Verif Require Import Common.Base Strconv.Model Strconv.FModel Strconv.IntProofs Strconv.NumProofs Strconv.DecProofs Strconv.ScanProofs Strconv.FloatProofs Strconv.DecValueProofs Strconv.Legacy.
+From Verif Require Import Common.Base Strconv.Model Strconv.FModel Strconv.IntProofs Strconv.NumProofs Strconv.DecProofs Strconv.ScanProofs Strconv.FloatProofs Strconv.DecValueProofs Strconv.DecSideProofs Strconv.Legacy.
 Open Scope Z_scope.
 
 (* ParseInt, for EVERY byte string: written as sign ++ digits ++ rest (sign = "", "+" or "-";
@@ -70,26 +70,60 @@ Theorem append_number_spec : forall b spare num dec gsize gs ds,
 Proof. exact append_number_spec_proof. Qed.
 Print Assumptions append_number_spec.
 
-(* AppendDecimal: nothing is appended for NaN and the infinities; for a finite f whose scaled and
-   rounded value num = int64(f*10^dec +- 0.5) fits int64 (num <> MinInt64; see the level note for
-   the other case) the destination prefix is preserved and what is appended is the canonical
-   literal of num / 10^dec: '-' exactly when num < 0, integer digits without leading zeros, and
-   only if needed a dot and at most dec digits of which the last is not '0'; "0" for num = 0. *)
-Theorem append_decimal_shape : forall b spare f dec,
+(* AppendDecimal, for EVERY float64 f (valid_binary; every bit pattern is one, see [float64_bits_valid]) and every
+   dec: nothing is appended for NaN and the infinities; otherwise the destination prefix is preserved and what is
+   appended is the canonical literal of N / 10^dec: '-' exactly when N < 0, integer digits without leading zeros,
+   and only if needed a dot and at most dec digits of which the last is not '0'; "0" for N = 0.  N = [ad_num] is
+   int64(f*10^dec +- 0.5) below the threshold 9e18 <= |f|*10^dec (shown to be in the int64 range) and, at or
+   above it, +-(|f|*10^dec rounded half-even on the exact value, see [append_decimal_std_value]) as printed by
+   the standard library's 'f' format.  (Real-number argument through Flocq for the two range facts.) *)
+Theorem append_decimal_shape : forall b spare f dec, valid_binary 53 1024 f = true ->
   (f_finite f = false -> append_decimal b spare f dec = Ok b) /\
-  (f_finite f = true -> ad_scaled f (ad_dec dec) <> min_i64 ->
+  (f_finite f = true ->
    exists out, append_decimal b spare f dec = Ok (b ++ out) /\
-               dec_literal out (ad_scaled f (ad_dec dec)) (ad_dec dec)).
+               dec_literal out (ad_num f (ad_dec dec)) (ad_dec dec)).
 Proof. exact append_decimal_shape_proof. Qed.
 Print Assumptions append_decimal_shape.
 
+(* The same without the real-number argument (closed under the global context), the two range facts as a
+   decidable side condition [ad_side]. *)
+Theorem append_decimal_shape_core : forall b spare f dec,
+  (f_finite f = false -> append_decimal b spare f dec = Ok b) /\
+  (f_finite f = true -> ad_side f (ad_dec dec) ->
+   exists out, append_decimal b spare f dec = Ok (b ++ out) /\
+               dec_literal out (ad_num f (ad_dec dec)) (ad_dec dec)).
+Proof. exact DecProofs.append_decimal_shape_core. Qed.
+Print Assumptions append_decimal_shape_core.
+
+(* The integer printed by the standard-library branch is within half a unit of the last requested digit of the
+   exact value |f| * 10^dec = num/den (f = +-m*2^e), ties to even: exact arithmetic on Z. *)
+Theorem append_decimal_std_value : forall s m e dec0, 0 <= dec0 ->
+  let q := f_scaled_half_even (S754_finite s m e) dec0 in
+  let num := if 0 <=? e then Z.pos m * 2 ^ e * 10 ^ dec0 else Z.pos m * 10 ^ dec0 in
+  let den := if 0 <=? e then 1 else 2 ^ (- e) in
+  2 * Z.abs (q * den - num) <= den /\ (2 * Z.abs (q * den - num) = den -> Z.even q = true).
+Proof. exact std_value_proof. Qed.
+Print Assumptions append_decimal_std_value.
+
+Theorem float64_bits_valid : forall x, 0 <= x < two64 -> valid_binary 53 1024 (f_of_bits x) = true.
+Proof. exact f_of_bits_valid. Qed.
+Print Assumptions float64_bits_valid.
+
 (* ParseFloat never panics and, for EVERY byte string, consumes float_prefix_len b bytes: the
    longest prefix of [+-]? mantissa ([eE][+-]?digits)? with at least one mantissa digit (0 if
-   there is none) -- except that an exponent whose value does not fit int64 is not consumed
-   (exp_len; a listed finding). *)
+   there is none); an exponent of any number of digits is consumed. *)
 Theorem parse_float_prefix : forall b, exists v, parse_float b = Ok (v, float_prefix_len b).
 Proof. exact parse_float_prefix_proof. Qed.
 Print Assumptions parse_float_prefix.
+
+(* The exponent ParseFloat uses is the signed value of the exponent digits as long as that value is below the
+   saturation bound 10^15 (above it the accumulator stops growing; the result is then 0 or an infinity). *)
+Theorem parse_float_exponent_value : forall c sg ds rest i,
+  (c = 101 \/ c = 69) -> sign_ok sg -> all_digits ds -> ds <> [] -> stops rest ->
+  dec_value ds < 1000000000000000 ->
+  fst (pf_exponent (c :: sg ++ ds ++ rest) i) = if sign_neg sg then - dec_value ds else dec_value ds.
+Proof. exact pf_exponent_value_proof. Qed.
+Print Assumptions parse_float_exponent_value.
 
 (* ParseDecimal never panics and, for every byte string, consumes decimal_consumed b bytes: the
    longest prefix of -? digits ('.' digits)? (digit runs possibly empty), 0 for a lone '.'. *)
